@@ -155,9 +155,22 @@ def run_workers(binp, test, prop, seed, nruns, budget_s, outdir, extra_env=None,
                 if "fatal error:" in full:
                     # the Go runtime aborted the whole process (out of memory, concurrent map write, ...)
                     fl = [l for l in full.splitlines() if l.startswith("fatal error:")][0]
-                    frames = [l.strip() for l in full.splitlines() if "dappledger/AnnChain/" in l and "(" in l and not l.startswith("\t")]
+                    # the faulting goroutine is the first one printed; the abort is attributed to the code under test only if
+                    # the first frame of that goroutine outside the Go runtime is repository code (a harness bug is exit 2)
+                    first_g = full.split("fatal error:", 1)[1].split("\n\ngoroutine ", 2)
+                    first_g = first_g[1] if len(first_g) > 1 else ""
+                    fr = [l.strip() for l in first_g.splitlines() if "(" in l and not l.startswith("\t") and not l.startswith("goroutine")
+                          and not l.strip().startswith(("runtime.", "internal/", "sync.", "sync/", "testing."))]
+                    frames = [fr[0]] if fr and "dappledger/AnnChain/" in fr[0] and "/simhook." not in fr[0] else []
                     frame = frames[0].split("/")[-1].split("(0x")[0] if frames else "?"
                     seedl = [l for l in full.splitlines() if l.startswith("run ")]
+                    if not frames:
+                        fatal = None
+                        failures.append(dict(job=st["job"], rc=p.returncode, got=len(got), stderr=tail, kind="crash", fatal=None, harness_abort=fl))
+                        idx = last_run_index(st["errp"])
+                        if idx is not None and idx + 1 < st["job"][1]:
+                            jobs.append((idx + 1, st["job"][1]))
+                        continue
                     fatal = dict(msg=fl, frame=frame, seed=int(seedl[-1].split()[3]) if seedl else 0, index=int(seedl[-1].split()[1]) if seedl else -1)
                 failures.append(dict(job=st["job"], rc=p.returncode, got=len(got), stderr=tail, kind="crash", fatal=fatal))
                 # a crashed worker (a panic that escaped the registry) loses only the run it was in
